@@ -496,7 +496,7 @@ func tsRun(rt *rapid.T) {
 			s.reads++
 		case 14:
 			switch {
-			case vs.Pct(c, 25) && scaled < 3: // ScaleBy
+			case vs.Pct(c, 10) && scaled < 3: // ScaleBy
 				f := vs.Pick(c, 2.0, 0, 1, 3, -1, 0.5)
 				panicked := vs.Guard("C61", "scaleby", func() { s.ts.ScaleBy(f) }) != nil
 				tr.Ev("ScaleBy %g panicked=%v", f, panicked)
@@ -528,6 +528,33 @@ func tsRun(rt *rapid.T) {
 			default:
 				viol = s.checkTotal("op")
 			}
+		case 15:
+			if gap && vs.Bool(c) {
+				// gapadd configuration: a read advances the series past the newest
+				// observation, then an observation is added into the gap behind it.
+				clk.now = clk.now.Add(2*time.Second + randDur()%(2*time.Hour))
+				if clk.now.Year() >= 2200 {
+					continue
+				}
+				tr.Ev("clock -> %d", clk.now.UnixNano())
+				var got float64
+				lvl := c.Intn(nl)
+				viol = vs.Guard("C61", "panic_in_latest", func() { got = tsVal(s.ts.Latest(lvl, 1)) })
+				if viol == nil {
+					viol = s.checkLatest("Latest", lvl, 1, []float64{got}, false)
+				}
+				l0 := s.ts.levels[0]
+				lo, hi := s.ts.pendingTime, l0.end.Add(-l0.size)
+				if viol == nil && hi.After(lo) {
+					w := hi.Sub(lo)
+					if lo.IsZero() || w > time.Hour {
+						w = time.Hour
+					}
+					viol, _ = s.add(value(), hi.Add(-time.Duration(c.Intn(int(w)))), false)
+				}
+				continue
+			}
+			fallthrough
 		default: // a burst of in-order observations, one per tick
 			n := vs.Range(c, 1, 20)
 			tick := vs.Pick(c, 100*time.Millisecond, time.Second, 7*time.Second, time.Minute, 250*time.Millisecond, 61*time.Minute)
